@@ -59,7 +59,7 @@ func runManagedListed(rep *lib.Report, w *stackWorld) {
 						Header: cloneHeader(in), Host: uc.Host, RemoteAddr: e.remote}
 					ctx, remove, err := martian.TestContext(req, nil, nil)
 					if err != nil {
-						rep.Incomplete = "managed-listed family: TestContext: " + err.Error()
+						setIncomplete(rep, "managed-listed family: TestContext: "+err.Error())
 						return
 					}
 					var problems []string
@@ -143,6 +143,6 @@ func runManagedListed(rep *lib.Report, w *stackWorld) {
 			}
 		}
 	}
-	rep.Coverage["managed_header_named_by_connection_cases"] = cases
-	rep.Coverage["managed_header_named_by_connection_failing"] = fails
+	setCov(rep, "managed_header_named_by_connection_cases", cases)
+	setCov(rep, "managed_header_named_by_connection_failing", fails)
 }
